@@ -196,6 +196,10 @@ def fixedarray_search(part, N):
                         ok = r.dimension == d and runit == exp_unit
                         if not uvu and r.GetQuantity() != q:
                             ok = False
+                        # a plain number or a (value, unit) pair brings no category of its own: the result
+                        # "differs from the original only at the given index" - it stays in the array's category
+                        if not isinstance(v, Scalar) and r.GetCategory() != q.GetCategory():
+                            ok = False
                         for j in range(d):
                             e = db.Convert("length", aunit, runit, amount) if j == i % d else db.Convert("length", unit, runit, sv[j])
                             if not close(rv[j], e, max(abs(e), 1e-300), 1e-12):
@@ -380,5 +384,4 @@ def run(ctx):
     ctx.assumptions = [
         "element values are dropped from the canonical state: no size behaviour depends on them",
         "an out-of-range index may raise IndexError (it does not break a size invariant); size-breaking constructor / CreateCopy(values=) attempts must raise ValueError",
-        "the category of ChangingIndex(i, float) results is not judged (the scalar is built from the unit alone)",
     ]
